@@ -80,10 +80,18 @@ def corr_mm():
             ]}
 
 
+def model_root(root):
+    """the element of the (single) root object: the document element, or the only child of an xmi:XMI wrapper"""
+    from lxml import etree
+    if etree.QName(root).localname == 'XMI' and len(root) == 1:
+        return root[0]
+    return root
+
+
 def infoset_of(data, fname):
     """what the writer added to the root node for feature fname, from the bytes"""
     from lxml import etree
-    root = etree.fromstring(data)
+    root = model_root(etree.fromstring(data))
     if fname in root.attrib:
         return ('attr', root.attrib[fname])
     kids = [c for c in root if etree.QName(c).localname == fname]
@@ -269,7 +277,7 @@ def corr_refload(out, model, st, rng, built, mm, n, fmt='xmi'):
             idx = [own.index(x) for x in keep]
             if fmt == 'xmi':
                 tree = etree.parse(path)
-                xel = [c for c in tree.getroot() if etree.QName(c).localname == 'kids'][xid - 1]
+                xel = [c for c in model_root(tree.getroot()) if etree.QName(c).localname == 'kids'][xid - 1]
                 if 'r' in xel.attrib:
                     toks = xel.attrib['r'].split()
                     new = [toks[i] for i in idx]
@@ -280,7 +288,7 @@ def corr_refload(out, model, st, rng, built, mm, n, fmt='xmi'):
                 tree.write(path, xml_declaration=True, encoding='UTF-8')
             else:
                 doc = _json.load(open(path))
-                xd = doc['kids'][xid - 1]
+                xd = (doc[0] if isinstance(doc, list) else doc)['kids'][xid - 1]
                 if 'r' in xd:
                     xd['r'] = [xd['r'][i] for i in idx]
                     if not xd['r']:
